@@ -82,6 +82,23 @@ enum {
   MYTH_VP_CTX_CB_N = 12
 };
 
+/* point ids of the init-once protocol (myth_init.c); a = &g_myth_init_state */
+enum {
+  MYTH_VP_INIT_FAST = 150,    /* init_ex_body read `initialized' and returns; b = attr */
+  MYTH_VP_INIT_SLOW = 151,    /* init_ex_body read something else; v = 0 */
+  MYTH_VP_INIT_CAS = 152,     /* after the electing CAS; v = 1 won, 0 lost */
+  MYTH_VP_INIT_WAIT = 153,    /* SPIN: one iteration of myth_init_once_ctl_wait (value read != awaited) */
+  MYTH_VP_INIT_WAITED = 154,  /* a CAS loser saw `initialized' and returns */
+  MYTH_VP_INIT_REALLY = 155,  /* inside myth_init_ex_body_really; v = number of workers used */
+  MYTH_VP_INIT_STARTED = 156, /* workers created, before the store of `initialized'; v = g_attr.n_workers */
+  MYTH_VP_INIT_DONE = 157,    /* after the store of `initialized' */
+  MYTH_VP_FINI_NOOP = 158,    /* fini_body read `uninit' and returns */
+  MYTH_VP_FINI_BEGIN = 159,   /* fini_body read something else */
+  MYTH_VP_FINI_WAITED = 160,  /* fini_body saw `initialized'; v = rank the caller runs on */
+  MYTH_VP_FINI_STOPPED = 161, /* all other workers joined; v = rank the caller runs on */
+  MYTH_VP_FINI_DONE = 162     /* after the store of `uninit' */
+};
+
 #ifdef MYTH_VERIF
 
 #ifdef __cplusplus
